@@ -79,6 +79,10 @@ def specs(tier: str):
                         if form == "zero" and not has_l:
                             continue
                         out.append(dict(distinct=distinct, order=okey, api=api, limit=has_l, offset=has_o, form=form))
+            # Select.slice(start, stop) on top of an earlier offset(): rows [O+start, O+stop)
+            for has_o in (False, True):
+                for a, b in ((1, 3), (0, 2), (2, 2)):
+                    out.append(dict(distinct=distinct, order=okey, api="slice", limit=True, offset=has_o, form="param", a=a, b=b))
     return out
 
 
@@ -93,6 +97,16 @@ def build_stmt(spec):
     form = spec["form"]
     # intended limit / offset as small ASTs over the symbolic markers
     lim_ast = off_ast = None
+    if spec["api"] == "slice":
+        a, b = spec["a"], spec["b"]
+        if spec["offset"]:
+            # slice() folds integer offsets in Python, so the earlier offset is a concrete 1 here
+            s = s.offset(1)
+            off_ast = ("lit", 1 + a)
+        else:
+            off_ast = ("lit", a)
+        s = s.slice(a, b)
+        return s, ("lit", b - a), off_ast
     if spec["limit"]:
         if form == "param":
             lv, lim_ast = LIM, ("lit", LIM)
@@ -380,6 +394,9 @@ def concrete_reference(spec, rows, L, O):
         rs = out
     for c, d in reversed(ORDERS[spec["order"]]):
         rs.sort(key=lambda r: r["ab".index(c)], reverse=(d == "DESC"))
+    if spec["api"] == "slice":
+        off = (1 if spec["offset"] else 0) + spec["a"]
+        return rs[off: off + (spec["b"] - spec["a"])]
     lim = {"param": L, "zero": 0, "expr": L + 1}[spec["form"]] if spec["limit"] else None
     off = ({"expr": O + 2}.get(spec["form"], O)) if spec["offset"] else 0
     return rs[off:] if lim is None else rs[off: off + lim]
@@ -407,6 +424,8 @@ def sqlite_run(spec, dkey, model):
 def key_of(spec, dkey, kind):
     k = "C18:%s:%s:%s%s%s:%s" % (dkey, kind.replace("-literal", "") if kind.startswith("sem") else kind, "distinct+" if spec["distinct"] else "",
                                  "limit" if spec["limit"] else "", "+offset" if spec["offset"] else "", spec["api"])
+    if spec["api"] == "slice":
+        k += "(%d,%d)" % (spec["a"], spec["b"])
     return k if kind.startswith("sem") else k + ":" + spec["form"]
 
 
